@@ -24,8 +24,25 @@ SRC_LH = 'hail/hail/src/is/hail/stats/LeveneHaldane.scala'
 SRC_FUNCS = 'hail/python/hail/expr/functions.py'
 SRC_TESTS = 'hail/python/test/hail/expr/test_expr.py'
 COQ_PROPS = 'theories/Stats/Props_C37.v'
-READY = False
-META = dict(design_ref='§5.G C37', technique='', level_text='', level_note='', partial=True)
+READY = True
+META = dict(
+    design_ref='§5.G C37',
+    technique='Coq proofs over exact rationals about definitions regenerated from the Scala source text (fail-closed translator: Double -> Q, '
+              'Int -> 32-bit); comparison of the exact model with the engine outputs recorded in the repository\'s doctests and tests',
+    level_text='PARTIAL - exact-arithmetic core only. Machine-checked (Coq 8.16, closed under the global context) about definitions regenerated '
+               'from package.scala / LeveneHaldane.scala on every run: hardyWeinbergTest rejects negative counts and derives n, nAB, nA with '
+               '0 <= nA <= n and equal parity for all counts with n < 2^30; every step of the Levene-Haldane streams multiplies by the exact '
+               'ratio P(nAB+-2)/P(nAB) of the Levene-Haldane distribution and the right stream vanishes past nA; the mean is nA nB/(2n-1); the '
+               'normalised masses sum to one; rightMidP, leftMidP (generated combinations) and exactMidP (hand model) lie in [0,1] for every finite '
+               'distribution; the chi-squared statistic is the textbook N(ad-bc)^2/((a+b)(c+d)(a+c)(b+d)) >= 0 for all tables with positive '
+               'margins; contingencyTableTest dispatches on min_cell_count as documented; Fisher\'s support [low, high] contains the observed cell '
+               'and is exactly the set of feasible tables (total < 2^31).',
+    level_note='NOT covered: floating-point error, the 1e-16 stream cut-offs and 1e-12 tie tolerance, the mode formula\'s optimality (only searched), '
+               'pchisqtail / HypergeometricDistribution / uniroot (commons-math and numerical code), Fisher\'s p-value, odds-ratio estimate and confidence '
+               'interval, and "within floating-point tolerance" itself. Nothing of the Scala engine can be executed in the sandbox; the only observed '
+               'behaviour is the handful of outputs recorded in functions.py doctests and test_expr.py, which the exact model reproduces to 1e-6.',
+    partial=True,
+)
 TRUSTED = ['harness/translate/c34_monadic.py + c37_scala_q.py: Scala def-body translator (Int = 32-bit, Double = exact rational, '
            'division by zero = None) and the regular expressions that cut single vals / one-line methods out of the class body',
            'coq/theories/Stats/Model.v and CallPacking/Model.v: primitive operations']
@@ -141,9 +158,269 @@ Section Gen.
     ctx.write_generated('Gen.v', text)
 
 
+# ------------------------------------------------------------------------------------------------
+# recorded engine outputs (doctests of functions.py, assertions of test_expr.py) - the only executed behaviour available
+
+HEADER = ('From HailV Require Import Common.Prelude CallPacking.Model Stats.Model Stats.Pipeline.\nFrom Coq Require Import QArith.\n'
+          'From HailG Require Import C37.Gen.\nOpen Scope Z_scope.')
+QPAIR = 'fun q : Q => (Qnum (Qred q), Z.pos (Qden (Qred q)))'
+QLIST = 'fun q : Q => [Qnum (Qred q); Z.pos (Qden (Qred q))]'
+
+
+def _recorded(ctx):
+    """[(function, args tuple, {field: (value, relative tolerance)})] parsed from the repository"""
+    funcs = ctx.read_repo(SRC_FUNCS)
+    out = []
+    for m in re.finditer(r'>>> hl\.eval\(hl\.(hardy_weinberg_test|chi_squared_test|contingency_table_test|fisher_exact_test)\(([^)]*)\)\)\s*\n\s*Struct\(([^)]*)\)', funcs):
+        fn, args, fields = m.group(1), m.group(2), m.group(3)
+        a = [x.strip() for x in args.split(',')]
+        kw = {}
+        pos = []
+        for x in a:
+            if '=' in x:
+                k, v = x.split('=')
+                kw[k.strip()] = v.strip()
+            else:
+                pos.append(int(x))
+        vals = {}
+        for fm in re.finditer(r'(\w+)=([-+0-9.eE]+)', fields):
+            vals[fm.group(1)] = (float(fm.group(2)), 1e-9)
+        if fn == 'contingency_table_test':
+            pos.append(int(kw['min_cell_count']))
+        if fn == 'hardy_weinberg_test':
+            pos.append(kw.get('one_sided', 'False') == 'True')
+        out.append((fn, tuple(pos), vals, 'doctest'))
+    try:
+        tests = ctx.read_repo(SRC_TESTS)
+    except OSError:
+        tests = ''
+    # res = hl.eval(hl.f(args)) followed by assertAlmostEqual(res['x'] / V, 1.0, places=4) or assertAlmostEqual(res['x'], V)
+    for m in re.finditer(r"(\w+) = hl\.eval\(hl\.(hardy_weinberg_test|chi_squared_test|contingency_table_test|fisher_exact_test)\(([^)]*)\)\)\n((?:\s+self\.assert[^\n]*\n)+)", tests):
+        var, fn, args, body = m.groups()
+        pos, kw = [], {}
+        ok = True
+        for x in [x.strip() for x in args.split(',')]:
+            if '=' in x:
+                k, v = x.split('=')
+                kw[k.strip()] = v.strip()
+            else:
+                try:
+                    pos.append(int(x))
+                except ValueError:
+                    ok = False
+        if not ok:
+            continue
+        if fn == 'hardy_weinberg_test':
+            pos.append(kw.get('one_sided', 'False') == 'True')
+        vals = {}
+        for am in re.finditer(r"assertAlmostEqual\(%s\['(\w+)'\] / ([-+0-9.eE]+), 1\.0, places=(\d+)\)" % re.escape(var), body):
+            vals[am.group(1)] = (float(am.group(2)), 10 ** -(int(am.group(3)) - 1))
+        for am in re.finditer(r"assertAlmostEqual\(%s\['(\w+)'\], ([-+0-9.eE]+)\)" % re.escape(var), body):
+            v = float(am.group(2))
+            vals[am.group(1)] = (v, 1e-6 / max(abs(v), 1e-12))
+        if vals:
+            out.append((fn, tuple(pos), vals, 'test_expr'))
+    return out
+
+
+def _hyper_two_sided(N, K, s, low, high, obs):
+    """Fisher two-sided p-value over the support [low, high] in exact arithmetic (R's definition, as the engine implements it)."""
+    den = math.comb(N, s)
+    pm = {k: Fraction(math.comb(K, k) * math.comb(N - K, s - k), den) for k in range(low, high + 1)}
+    return float(sum(v for v in pm.values() if v <= pm[obs] * (1 + Fraction(1, 10 ** 7))))
+
+
 def correspond(ctx):
-    return Corr()
+    rec = _recorded(ctx)
+    if len(rec) < 6:
+        raise TieBroken('recorded-outputs', f'only {len(rec)} recorded examples found in {SRC_FUNCS} / {SRC_TESTS}')
+    exprs, plan = [], []
+    for fn, args, vals, origin in rec:
+        if fn == 'hardy_weinberg_test':
+            r, h, v, one = args
+            if r + h + v > ctx.scale(400, 2000):
+                continue          # exact rationals for large n are slow: thorough tier only
+            exprs.append(f'match hwe_model {r} {h} {v} {"true" if one else "false"} with Some (a, b) => Some (({QLIST}) a ++ ({QLIST}) b) | None => None end')
+            plan.append((fn, args, vals, origin))
+        elif fn == 'chi_squared_test':
+            a, b, c, d = args
+            exprs.append(f'match chisq_statistic {a} {b} {c} {d} with Some (x, ad, bc) => Some (({QLIST}) x ++ ({QLIST}) ad ++ ({QLIST}) bc) | None => None end')
+            plan.append((fn, args, vals, origin))
+        elif fn == 'contingency_table_test':
+            a, b, c, d, mc = args
+            exprs.append(f'contingencyTableTest Z (fun _ _ _ _ => Some 1) (fun _ _ _ _ => Some 2) {a} {b} {c} {d} {mc}')
+            plan.append((fn, args, vals, origin))
+        elif fn == 'fisher_exact_test':
+            a, b, c, d = args
+            exprs.append(f'fisher_support {a} {b} {c} {d}')
+            plan.append((fn, args, vals, origin))
+    mv = coq_eval(ctx, HEADER, exprs, shard=4, label='rec')
+    dis = []
+    rec_chi = {args: vals for fn, args, vals, _ in rec if fn == 'chi_squared_test'}
+    rec_fis = {args: vals for fn, args, vals, _ in rec if fn == 'fisher_exact_test'}
+
+    def close(x, ref, tol):
+        if math.isnan(ref):
+            return x is None or (isinstance(x, float) and math.isnan(x))
+        return x is not None and abs(x - ref) <= tol * max(abs(ref), 1e-300)
+    samples = []
+    for (fn, args, vals, origin), m in zip(plan, mv):
+        case = {'kind': 'recorded', 'function': fn, 'args': list(args), 'origin': origin}
+        got = {}
+        if fn == 'hardy_weinberg_test':
+            if m is not None:
+                hn, hd, pn, pd = m[1]
+                got = {'het_freq_hwe': hn / hd, 'p_value': pn / pd}
+        elif fn == 'chi_squared_test':
+            if m is not None:
+                xn, xd, an, ad_, bn, bd = m[1]
+                x = Fraction(xn, xd)
+                got = {'p_value': math.erfc(math.sqrt(float(x) / 2)), 'odds_ratio': (an / ad_) / (bn / bd) if bn else float('nan')}
+        elif fn == 'contingency_table_test':
+            which = m[1] if m is not None else None
+            ref = rec_chi.get(args[:4]) if which == 1 else rec_fis.get(args[:4]) if which == 2 else None
+            if ref is not None:
+                got = {k: ref[k][0] for k in vals if k in ref}
+            else:
+                got = {'dispatch': which}
+        elif fn == 'fisher_exact_test':
+            if m is not None:
+                deg, N, K, s, low, high = m[1]
+                if deg:
+                    got = {k: float('nan') for k in vals}
+                else:
+                    got = {'p_value': _hyper_two_sided(N, K, s, low, high, args[0])}        # conditional MLE / CI: not modelled, not compared
+        bad = {k: (got.get(k), ref) for k, (ref, tol) in vals.items() if k in got and not close(got.get(k), ref, max(tol, 1e-6))}
+        if not got:
+            bad = {'(no model value)': (None, None)}
+        samples.append({'case': case, 'model': got, 'recorded': {k: v[0] for k, v in vals.items()}})
+        if bad:
+            dis.append(Disagreement('exact-model~recorded-engine-output', case, {k: v[0] for k, v in bad.items()}, {k: v[1] for k, v in bad.items()}))
+    return Corr(evaluations=len(plan), distinct_nontrivial=len({(fn, args) for fn, args, _, _ in plan}),
+                rule='recorded outputs: every doctest example of functions.py and every assertAlmostEqual of test_expr.py for the four tests '
+                     '(inputs, field, value, tolerance); the exact model (vm_compute; p-values of chi-squared via erfc, of Fisher via the exact '
+                     'hypergeometric pmf over the modelled support) must reproduce them to max(1e-6, recorded tolerance) relative',
+                samples=samples[:6], disagreements=dis, names=['exact-model~recorded-engine-output'])
+
+
+# ------------------------------------------------------------------------------------------------
+# model-level search for a concrete input (the engine cannot be executed)
+
+def _lh_weight(nA, nB, k):
+    return Fraction(2 ** k, math.factorial((nA - k) // 2) * math.factorial(k) * math.factorial((nB - k) // 2))
 
 
 def oracle(ctx, budget):
-    return [], {}
+    """There is NO executable implementation of C37 in this sandbox (Scala only). The search below evaluates the definitions
+    regenerated from the Scala text against independent exact references (Python fractions) and reports the first differing
+    input, labelled as evidence about the MODEL of the engine."""
+    rng = ctx.rng
+    fails = []
+    tables = [(a, b, c, d) for a in range(0, 4) for b in range(0, 4) for c in range(0, 3) for d in range(0, 3)]
+    tables += [(51, 43, 22, 92), (61, 17493, 95, 84145), (10, 10, 10, 10)]
+    while len(tables) < ctx.scale(220, 1500) * budget:
+        tables.append(tuple(rng.choice([rng.randrange(0, 6), rng.randrange(0, 100), rng.randrange(0, 100000)]) for _ in range(4)))
+    hw = [(r, h, v) for r in range(0, 4) for h in range(0, 4) for v in range(0, 4)]
+    while len(hw) < ctx.scale(120, 800) * budget:
+        hw.append(tuple(rng.choice([rng.randrange(0, 5), rng.randrange(0, 60), rng.randrange(0, 100000)]) for _ in range(3)))
+    lh = []
+    for n in list(range(1, 9)) + [rng.randrange(9, 60) for _ in range(ctx.scale(10, 80))]:
+        for nA in sorted({0, 1, 2, n // 2, n - 1, n} | {rng.randrange(0, n + 1)}):
+            if 0 <= nA <= n:
+                nB = 2 * n - nA
+                for k in range(nA % 2, nA + 1, 2):
+                    lh.append((n, nA, nB, k))
+    exprs = []
+    for t in tables:
+        a, b, c, d = t
+        exprs.append(f'match chisq_statistic {a} {b} {c} {d} with Some (x, _, _) => Some (({QPAIR}) x) | None => None end')
+        exprs.append(f'fisher_support {a} {b} {c} {d}')
+        mc = (a + b + c) % 7
+        exprs.append(f'contingencyTableTest Z (fun _ _ _ _ => Some 1) (fun _ _ _ _ => Some 2) {a} {b} {c} {d} {zlit(mc - 1)}')
+    for r, h, v in hw:
+        exprs.append(f'hwe_args {r} {h} {v} false')
+    for n, nA, nB, k in lh:
+        exprs.append(f'(match pRU_next_val {n} {nA} {nB} {k} 1%Q with Some x => Some (({QPAIR}) x) | None => None end, '
+                     f'match pLU_next_val {n} {nA} {nB} {k} 1%Q with Some x => Some (({QPAIR}) x) | None => None end, lh_mode {n} {nA} {nB} {nA % 2})')
+    try:
+        mv = coq_eval(ctx, HEADER.replace(' Stats.Pipeline', ''), exprs, shard=200, label='oracle')
+    except Exception as ex:  # noqa: BLE001 - generated file missing when the translator failed closed
+        ctx.notes.append(f'model-level search not available: {str(ex)[:200]}')
+        return [], {'evaluations': 0, 'distinct_nontrivial': 0, 'rule': 'no executable implementation (Scala); model-level search unavailable'}
+    pos = 0
+
+    def some(v):
+        return None if v is None else v[1]
+    for a, b, c, d in tables:
+        chi, fs, disp = some(mv[pos]), some(mv[pos + 1]), some(mv[pos + 2])
+        pos += 3
+        case = {'kind': 'table', 'table': [a, b, c, d]}
+        den = (a + b) * (c + d) * (a + c) * (b + d)
+        ref = Fraction((a + b + c + d) * (a * d - b * c) ** 2, den) if den else None
+        if (a + b) * (c + d) == 0 or (b + d) * (a + c) == 0:
+            ref = None
+        got = None if chi is None else Fraction(chi[0], chi[1])
+        if got != ref:
+            fails.append(Failure('engine-model:chi-squared-statistic', f'MODEL of chiSquaredTest (regenerated from package.scala, not executed): statistic for {a, b, c, d} '
+                                 f'is {got}, the textbook N(ad-bc)^2/((a+b)(c+d)(a+c)(b+d)) is {ref}', case, str(ref), str(got)))
+        N, K, s = a + b + c + d, a + c, a + b
+        low, high = max(0, s - (b + d)), min(s, K)
+        deg = not (N > 0 and s > 0 and s < N and K > 0 and K < N)
+        if fs is None or tuple(fs) != (deg, N, K, s, low, high):
+            fails.append(Failure('engine-model:fisher-support', f'MODEL of fisherExactTest (not executed): support data for {a, b, c, d} is {fs}, expected '
+                                 f'{(deg, N, K, s, low, high)}', case, [deg, N, K, s, low, high], fs))
+        mc = (a + b + c) % 7 - 1
+        exp = None if mc < 0 else (1 if min(a, b, c, d) >= mc else 2)
+        if disp != exp:
+            fails.append(Failure('engine-model:contingency-dispatch', f'MODEL of contingencyTableTest (not executed): table {a, b, c, d} with min_cell_count {mc} '
+                                 f'dispatches to {disp}, expected {exp} (1 = chi-squared, 2 = Fisher, None = error)', dict(case, min_cell_count=mc), exp, disp))
+    for r, h, v in hw:
+        m = some(mv[pos]); pos += 1
+        exp = (r + h + v, h, h + 2 * min(r, v))
+        if m is None or tuple(m) != exp:
+            fails.append(Failure('engine-model:hwe-arguments', f'MODEL of hardyWeinbergTest (not executed): (n, nAB, nA) for {r, h, v} is {m}, expected {exp}',
+                                 {'kind': 'hwe', 'counts': [r, h, v]}, list(exp), m))
+    for n, nA, nB, k in lh:
+        m = mv[pos]; pos += 1
+        right, left, mode = some(m[0]), some(m[1]), some(m[2])
+        case = {'kind': 'lh', 'n': n, 'nA': nA, 'nB': nB, 'nAB': k}
+        exp_r = _lh_weight(nA, nB, k + 2) / _lh_weight(nA, nB, k) if k + 2 <= nA else Fraction(0)
+        if right is None or Fraction(right[0], right[1]) != exp_r:
+            fails.append(Failure('engine-model:lh-right-ratio', f'MODEL of LeveneHaldane.pRUfrom (not executed): step from nAB={k} (n={n}, nA={nA}) multiplies by {right}, '
+                                 f'the Levene-Haldane ratio P(nAB+2)/P(nAB) is {exp_r}', case, str(exp_r), right))
+        if k >= 2:
+            exp_l = _lh_weight(nA, nB, k - 2) / _lh_weight(nA, nB, k)
+            if left is None or Fraction(left[0], left[1]) != exp_l:
+                fails.append(Failure('engine-model:lh-left-ratio', f'MODEL of LeveneHaldane.pLUfrom (not executed): step from nAB={k} (n={n}, nA={nA}) multiplies by {left}, '
+                                     f'the Levene-Haldane ratio P(nAB-2)/P(nAB) is {exp_l}', case, str(exp_l), left))
+        # the mode formula must give a maximiser of the weight among the support points
+        if mode is not None:
+            ws = {j: _lh_weight(nA, nB, j) for j in range(nA % 2, nA + 1, 2)}
+            if mode not in ws or ws[mode] != max(ws.values()):
+                fails.append(Failure('engine-model:lh-mode', f'MODEL of the mode formula (not executed): n={n}, nA={nA} gives mode {mode}, which is not a most probable outcome',
+                                     case, max(ws, key=ws.get), mode))
+    stats = {'evaluations': len(exprs), 'distinct_nontrivial': len(set(tables)) + len(set(hw)) + len(set(lh)),
+             'rule': 'NO executable implementation exists here (Scala only): generated definitions (vm_compute) vs exact references computed with Python '
+                     'fractions on small-scope + seeded random 2x2 tables, genotype-count triples and (n, nA, nAB) points; non-trivial = distinct inputs'}
+    return fails, stats
+
+
+def replay(ctx, doc):
+    case = doc.get('case') or {}
+    out = {'case': case, 'note': 'C37 has no executable implementation in the sandbox; the values below are those of the model regenerated from the Scala text'}
+    try:
+        if case.get('kind') == 'table':
+            a, b, c, d = case['table']
+            m = coq_eval(ctx, HEADER, [f'(match chisq_statistic {a} {b} {c} {d} with Some (x, _, _) => Some (({QPAIR}) x) | None => None end, fisher_support {a} {b} {c} {d})'])[0]
+            out['model'] = m
+        elif case.get('kind') == 'hwe':
+            r, h, v = case['counts']
+            out['model'] = coq_eval(ctx, HEADER, [f'hwe_args {r} {h} {v} false'])[0]
+        elif case.get('kind') == 'lh':
+            n, nA, nB, k = case['n'], case['nA'], case['nB'], case['nAB']
+            out['model'] = coq_eval(ctx, HEADER, [f'(match pRU_next_val {n} {nA} {nB} {k} 1%Q with Some x => Some (({QPAIR}) x) | None => None end, lh_mode {n} {nA} {nB} {nA % 2})'])[0]
+        elif case.get('kind') == 'recorded':
+            out['note'] += '; recorded example: re-run the check to compare'
+    except Exception as ex:  # noqa: BLE001
+        out['model'] = f'not available: {str(ex)[:200]}'
+    return out
